@@ -53,9 +53,43 @@ def alias_const(t):
     return "ok"
 
 
+def const_view(t):
+    """a view made CONSTANT explicitly (view op with constant=True) of a non-constant tensor, possibly with a non-constant view of its own: it never exposes a gradient --
+    neither when it took part in the differentiated program, nor after the gradient of its child view has been read (which may fill internal caches)"""
+    reset_global_state()
+    x = mg.tensor(np.arange(1.0, 7.0).reshape(2, 3))
+    mk = {"reshape": lambda a, c: mg.reshape(a, (3, 2) if a.shape == (2, 3) else (2, 3), constant=c), "transpose": lambda a, c: mg.transpose(a, constant=c),
+          "swapaxes": lambda a, c: mg.swapaxes(a, 0, 1, constant=c), "expand_dims": lambda a, c: mg.expand_dims(a, 0, constant=c), "ravel": lambda a, c: mg.ravel(a, constant=c)}
+    c = mk[t["fn"]](x, True)
+    v = mk[t["fn2"]](c, False) if c.ndim == 2 or t["fn2"] in ("expand_dims", "ravel") else c[...]
+    L = (x * x).sum()
+    if t["c_in_graph"]:
+        L = L + (c * 2.0).sum()
+    if t["v_in_graph"]:
+        L = L + (v * 3.0).sum()
+    bad = []
+    if t["read_before"]:
+        if c.grad is not None:
+            bad.append("before backward")
+    L.backward()
+    for k in range(2):
+        if t["order"] == 0:
+            _ = v.grad
+        if c.grad is not None:
+            bad.append("after backward (read %d, child read first: %s)" % (k, t["order"] == 0))
+        _ = v.grad
+    if not c.constant:
+        bad.append("flag lost")
+    if v.constant or (v.base is not None and x.grad is not None and v.grad is None):
+        bad.append("the non-constant child view has no gradient")
+    return "ok" if not bad else "constant view exposes a gradient / flags: " + "; ".join(bad)
+
+
 def task(t):
     if t.get("what") == "alias_const":
         return alias_const(t)
+    if t.get("what") == "const_view":
+        return const_view(t)
     reset_global_state()
     k = t["kind"]
     track = t["track"]
